@@ -118,7 +118,7 @@ def gc_trace(ctx, which):
     n = 500 if q else 20000
     model_check_many(ctx, [("MC_Walrus", "MC_Walrus_%s_gc" % f.capitalize(), "design-gc-" + f) for f in (["calls", "tables"] if q else FAMILIES)])
     trace = os.path.join(ctx.work, "gc.ndjson")
-    inputs = "fixtures,file:%s,%s,gen:%d,gen:%d:stable,gen:%d:mvp" % (DODRIO, fam_inputs(ctx, fams), n, n // 4, n // 4)
+    inputs = "fixtures,ops,file:%s,%s,gen:%d,gen:%d:stable,gen:%d:mvp" % (DODRIO, fam_inputs(ctx, fams), n, n // 4, n // 4)
     wv(["trace-gc", "inputs=" + inputs, "built=%d" % (300 if q else 10000), "seed=%d" % ctx.seed, "out=" + trace])
     os.environ["PROPERTY"] = which
     r, cases = judge_trace(ctx, "Trace_GC", trace, slim=lambda c: {k: c[k] for k in ("id", "source", "outcome", "sigma", "extra_roots")})
